@@ -42,6 +42,7 @@ fn main() {
             for h in 0..n {
                 let hseed = seed.wrapping_mul(1_000_003).wrapping_add(h);
                 let mut g = if extreme { gen::WorldGen::new_extreme(hseed, backend, h) } else { gen::WorldGen::new(hseed, backend, h) };
+                g.reroute = matrix;
                 events.push_str(&format!("== history {} seed {}\n", h, hseed));
                 wobs.push_str(&format!("== history {} seed {}\n", h, hseed));
                 if g.start() {
